@@ -19,7 +19,7 @@ inductive Refusal where
 /-- ok / refused with an error / Rust panic -/
 inductive Out (α : Type) where
   | ok (a : α) | refused (r : Refusal) | panic
-  deriving Repr
+  deriving DecidableEq, Repr
 
 /-- `EncodedPoint::try_from(CoseKey)` followed by `PublicKey::from_encoded_point`: the affine point
 that will be used, if the key is accepted.  Coordinates of a length other than 32 are refused
@@ -60,5 +60,33 @@ def sessionKey (z transcriptInner : Bytes) (reader : Bool) : Bytes :=
 /-- `calculate_ble_ident` (8.3.3.1.1.3): HKDF-SHA-256, IKM = EDeviceKeyBytes, empty salt, 16 bytes -/
 def bleIdent (eDeviceKeyInner : Bytes) : Bytes :=
   Sha2.hkdf256 [] (enc (.tag 24 (.bytes eDeviceKeyInner))) bleLabel 16
+
+/-- SessionTranscript (9.1.5.1) from the bytes on the wire: the engagement bytes as they were
+transported (QR), the EReaderKey bytes as they appear in the SessionEstablishment, the handover -/
+def transcriptOfWire (engagement eReaderKeyInner : Bytes) (handover : Cbor) : Bytes :=
+  enc (.array [.tag 24 (.bytes engagement), .tag 24 (.bytes eReaderKeyInner), handover])
+
+/-- EDeviceKeyBytes' inner bytes inside a DeviceEngagement: `{0: version, 1: [suite, #6.24(bstr)], ..}` -/
+def engagementDeviceKey (engagement : Bytes) : Option Bytes :=
+  match decode engagement with
+  | some (.map m) =>
+    match lookup (.uint 1) m with
+    | some (.array [_, .tag 24 (.bytes k)]) => some k
+    | _ => none
+  | _ => none
+
+def coseKeyOfBytes (b : Bytes) : Option CoseKey := (decode b).bind CoseKey.fromCbor
+
+/-- both session keys as the DEVICE derives them: own scalar, the reader's key from the establishment -/
+def deviceSession (engagement eReaderKeyInner : Bytes) (handover : Cbor) (scalar : Nat) : Out (Bytes × Bytes) :=
+  match coseKeyOfBytes eReaderKeyInner with
+  | none => .refused .invalidCoseKey
+  | some k =>
+    match sharedSecret k scalar with
+    | .ok z =>
+      let t := transcriptOfWire engagement eReaderKeyInner handover
+      .ok (sessionKey z t true, sessionKey z t false)
+    | .refused r => .refused r
+    | .panic => .panic
 
 end IsoMdl.KeyDerivation
